@@ -77,15 +77,10 @@ theorem mxPref_sat {recs : Bytes} {s : Stream} (type ds : Nat) (h : SIn recs.len
     exact h6.1
   · exact h
 
-theorem convertOne_sat {recs : Bytes} {s : Stream} (h : SIn recs.length s) :
-    (convertOne recs s).sat (fun r => SIn recs.length r.2) := by
-  unfold convertOne
-  apply Out.sat_bind (composeSkip_sat h); intro r1 h1
-  apply Out.sat_bind (readBE16_sat h1.1); intro r2 h2
-  apply Out.sat_bind (readBE16_sat h2.1); intro r3 h3
-  apply Out.sat_bind (readBE32_sat h3.1); intro r4 h4
-  apply Out.sat_bind (readBE16_sat h4.1); intro r5 h5
-  apply Out.sat_bind (mxPref_sat r2.1 r5.1 h5.1); intro r6 h6
+theorem convertData_sat {recs : Bytes} {s : Stream} (dname : Bytes) (type qclass ttl ds : Nat)
+    (h5 : SIn recs.length s) : (convertData recs dname type qclass ttl ds s).sat (fun r => SIn recs.length r.2) := by
+  unfold convertData
+  apply Out.sat_bind (mxPref_sat type ds h5); intro r6 h6
   obtain ⟨pref, dataSize, s6⟩ := r6
   dsimp only at h6 ⊢
   split
@@ -102,6 +97,16 @@ theorem convertOne_sat {recs : Bytes} {s : Stream} (h : SIn recs.length s) :
             apply Out.sat_bind (composeSkip_sat h7.1); intro r8 h8
             apply Out.sat_bind (readBytes_sat 20 h8.1); intro r9 h9; exact h9.1
           · apply Out.sat_bind (readBytes_sat _ h6); intro r7 h7; exact h7.1
+
+theorem convertOne_sat {recs : Bytes} {s : Stream} (h : SIn recs.length s) :
+    (convertOne recs s).sat (fun r => SIn recs.length r.2) := by
+  unfold convertOne
+  apply Out.sat_bind (composeSkip_sat h); intro r1 h1
+  apply Out.sat_bind (readBE16_sat h1.1); intro r2 h2
+  apply Out.sat_bind (readBE16_sat h2.1); intro r3 h3
+  apply Out.sat_bind (readBE32_sat h3.1); intro r4 h4
+  apply Out.sat_bind (readBE16_sat h4.1); intro r5 h5
+  exact convertData_sat _ _ _ _ _ h5.1
 
 theorem convertLoop_sat (recs : Bytes) : ∀ (n : Nat) (s : Stream), SIn recs.length s →
     (convertLoop recs n s).sat (fun _ => True)
@@ -375,3 +380,4 @@ theorem addRecord_sat {m : Msg} (sec : Section) (r : NewRec) (h : Inv m) : (addR
     omega
 
 end Tins.Dns
+
